@@ -151,3 +151,126 @@ class SimNet:
             if n > max_events:
                 raise HarnessError("event budget exceeded")
         return n
+
+
+# ---------------------------------------------------------------------------------------------
+# fault-raising reader / writer proxies (subclasses of the real classes)
+
+
+class SimFault(Exception):
+    """Injected failure of the Exception family (an I/O error of a failing reader/writer)."""
+
+
+class SimCancel(BaseException):
+    """Injected cancellation (KeyboardInterrupt-like): separates `finally` from `except Exception`."""
+
+
+class StepCap(BaseException):
+    """The step cap was exceeded: the call does not terminate within its bound."""
+
+
+READER_OPS = ["get_byte", "get_bytes", "get_char", "get_short", "get_three", "get_int", "get_string",
+              "get_fixed_string", "get_encoded_string", "get_fixed_encoded_string", "next_chunk"]
+WRITER_OPS = ["add_byte", "add_bytes", "add_char", "add_short", "add_three", "add_int", "add_string",
+              "add_fixed_string", "add_encoded_string", "add_fixed_encoded_string"]
+
+
+def make_faulty_reader(EoReader):
+    base_remaining = EoReader.remaining.fget
+
+    class FaultyReader(EoReader):
+        def __init__(self, data, fault_at=None, exc=None, cap=2_000_000):
+            super().__init__(data)
+            self.sim_n = 0
+            self.sim_log = []
+            self.sim_fault_at = fault_at
+            self.sim_exc = exc
+            self.sim_cap = cap
+            self.sim_rem = 0
+            self.sim_fired = False
+            self.sim_depth = 0
+
+        def _tick(self, op):
+            i = self.sim_n
+            self.sim_n = i + 1
+            self.sim_log.append((op, self._chunked_reading_mode))
+            if i == self.sim_fault_at:
+                self.sim_fired = True
+                raise self.sim_exc
+            if i >= self.sim_cap:
+                raise StepCap()
+
+        @property
+        def remaining(self):
+            self.sim_rem += 1
+            if self.sim_rem > 8 * self.sim_cap:
+                raise StepCap()
+            return base_remaining(self)
+
+    def wrap(name):
+        orig = getattr(EoReader, name)
+
+        def method(self, *a, **kw):
+            if self.sim_depth:               # internal call of one public method by another
+                return orig(self, *a, **kw)
+            self._tick(name)
+            self.sim_depth = 1
+            try:
+                return orig(self, *a, **kw)
+            finally:
+                self.sim_depth = 0
+
+        method.__name__ = name
+        return method
+
+    for name in READER_OPS:
+        setattr(FaultyReader, name, wrap(name))
+    return FaultyReader
+
+
+def make_faulty_writer(EoWriter):
+    class FaultyWriter(EoWriter):
+        def __init__(self, fault_at=None, exc=None, cap=2_000_000):
+            super().__init__()
+            self.sim_n = 0
+            self.sim_log = []
+            self.sim_fault_at = fault_at
+            self.sim_exc = exc
+            self.sim_cap = cap
+            self.sim_fired = False
+            self.sim_depth = 0
+
+        def _tick(self, op):
+            i = self.sim_n
+            self.sim_n = i + 1
+            self.sim_log.append((op, self._string_sanitization_mode))
+            if i == self.sim_fault_at:
+                self.sim_fired = True
+                raise self.sim_exc
+            if i >= self.sim_cap:
+                raise StepCap()
+
+        def __len__(self):
+            if not self.sim_depth:
+                self._tick("len")
+            return super().__len__()
+
+    def wrap(name):
+        orig = getattr(EoWriter, name)
+
+        def method(self, *a, **kw):
+            if self.sim_depth:               # internal call of one public method by another
+                return orig(self, *a, **kw)
+            self._tick(name)
+            self.sim_depth = 1
+            try:
+                return orig(self, *a, **kw)
+            finally:
+                self.sim_depth = 0
+
+        method.__name__ = name
+        return method
+
+    for name in WRITER_OPS:
+        setattr(FaultyWriter, name, wrap(name))
+    return FaultyWriter
